@@ -35,6 +35,7 @@ func runC01(l *core.Ledger) {
 	l.Rule("C01-R4", "exactly one quorum-function call site per loop, on the loop's own goroutine, preceded in each iteration by a reply-map write; the loop function is entered from one site")
 	l.Rule("C01-R5", "no quorum-function call is reachable after the function reported a quorum")
 	l.Rule("C01-R6", "every response handed to a caller carries c.node.ID() of the producing channel; only the stream reader attaches a message, taken from the message just received and routed under its own MessageID")
+	l.Rule("C01-R9", "the caller's request stays the caller's: the per-node function is handed a copy (C06-P9 re-run), so the request the quorum function is given cannot have been filled in by it")
 	l.Rule("C01-R8", "reply routing discipline (C05-M1 unique ids per invocation from one atomic counter, M2 register-before-queue, M4 deliver-then-delete, M6 reply channel made by this call; C07-E4/E6 a failed node's router is deleted) re-run: a reply set can only hold replies to this call's own request, and none from a node already reported as failed")
 	l.Rule("C01-R7", "generated quorum/async stubs and their templates: QuorumFunction closure returns c.qspec.<M>QF(req.(*In), r) with r filled by one range over replies as r[k] = v.(*Out); the stub returns res.(*CustomOut) of the raw call's result")
 
@@ -51,6 +52,13 @@ func runC01(l *core.Ledger) {
 	// request' presupposes the routing discipline of C05: unique ids, register
 	// before queue, deliver-then-delete
 	eps := findEntryPoints(l, r, "C01-R8")
+	// R9: the request the quorum function is shown is the caller's original only if nobody was
+	// given the chance to write to it: the per-node function works on a copy
+	l.With(map[string]string{"C06-P9": "C01-R9"}, func() {
+		for _, ep := range eps {
+			c06P1(l, ep)
+		}
+	})
 	l.With(map[string]string{"C05-M1": "C01-R8"}, func() { c05M1(l, r, eps) })
 	// the reply channel belongs to this call alone (made by it, never shared or recycled)
 	l.With(map[string]string{"C05-M6": "C01-R8"}, func() { c05M6(l, r, eps) })
